@@ -40,6 +40,7 @@ type HdrSpec struct {
 type Cand struct {
 	Gap       int64  `json:"gap"`                     // time = parent.time + gap (ignored when NowDelta set)
 	NowDelta  *int64 `json:"now_delta,omitempty"`     // time = fake clock + delta
+	TimeAbs   string `json:"time_abs,omitempty"`      // absolute timestamp (beyond 64 bits, ...)
 	DiffDelta int64  `json:"diff_delta,omitempty"`    // added to the scheduled difficulty
 	DiffAbs   string `json:"diff_abs,omitempty"`      // or an absolute difficulty
 	GasLimit  string `json:"gas_limit,omitempty"`     // "" = parent's; "+k"/"-k" relative to parent; absolute otherwise
@@ -62,12 +63,33 @@ type C13Plan struct {
 	Parent  HdrSpec        `json:"parent"`
 	Cands   []Cand         `json:"cands,omitempty"`
 	// batch mode
-	Gaps     []int64   `json:"gaps,omitempty"`
-	Bad      []BadSpec `json:"bad,omitempty"`
-	Workers  int       `json:"workers,omitempty"`
-	Schedule []int     `json:"schedule,omitempty"`
-	AbortAt  int       `json:"abort_at"`
+	Gaps     []int64    `json:"gaps,omitempty"`
+	Bad      []BadSpec  `json:"bad,omitempty"`
+	Workers  int        `json:"workers,omitempty"`
+	Schedule []int      `json:"schedule,omitempty"`
+	AbortAt  int        `json:"abort_at"`
+	Uncle    *UncleCase `json:"uncle,omitempty"`
 }
+
+// UncleCase selects one uncle-set situation on a synthetic 10-block chain.
+type UncleCase struct {
+	Case    int `json:"case"`
+	Depth   int `json:"depth"`    // the uncle's parent is the including block's ancestor at this depth (1 = its parent)
+	ByDepth int `json:"by_depth"` // for duplicates: the ancestor (depth) that already included the uncle
+	Count   int `json:"count"`
+}
+
+const (
+	uncleValid = iota
+	uncleDuplicateOfAncestorsUncle
+	uncleTwiceInBlock
+	uncleTooMany
+	uncleIsAncestor
+	uncleParentTooOld
+	uncleSiblingOfBlock
+	uncleInvalidHeader
+	numUncleCases
+)
 
 func DecodeC13Plan(raw json.RawMessage) (any, error) {
 	p := &C13Plan{AbortAt: -1}
@@ -169,6 +191,11 @@ func genCand(rng *kernel.RNG) Cand {
 		c.Gap = gaps[rng.Intn(len(gaps))]
 		c.DiffDelta = int64(rng.Intn(3)) - 1
 	}
+	if rng.Bool(0.04) && !c.Uncle {
+		// timestamps that do not fit 63/64 bits: far in the future whatever they truncate to
+		c.TimeAbs = []string{"18446744073709551616", "18446744074656236416", "9223372036854775808", "36893488147419103232", "340282366920938463463374607431768211456"}[rng.Intn(5)]
+		c.NowDelta = nil
+	}
 	return c
 }
 
@@ -176,6 +203,29 @@ func genCand(rng *kernel.RNG) Cand {
 func GenC13Plan(rng *kernel.RNG, env *kernel.Env, k int) any {
 	forks, id := genForks(rng)
 	p := &C13Plan{Forks: forks, ChainID: id, Parent: genParent(rng, forks), AbortAt: -1}
+	if k%5 == 4 {
+		p.Mode = "uncles"
+		if p.Parent.GasLimit > 1<<62 || p.Parent.GasLimit < 6000 {
+			p.Parent.GasLimit = 8_000_000
+		}
+		p.Uncle = &UncleCase{Case: rng.Intn(numUncleCases), Depth: rng.Range(2, 7), ByDepth: rng.Range(1, 6), Count: rng.Range(1, 3)}
+		// often place the 10-block window across a fork that changes the header
+		// version (HF5, HF8, HF9), so that an uncle and the ancestor that included
+		// it are hashed under different versions
+		var vf []uint64
+		for _, hf := range []int{5, 8, 9} {
+			if h, ok := forks[hf]; ok && h > 14 {
+				vf = append(vf, h)
+			}
+		}
+		if len(vf) > 0 && rng.Bool(0.7) {
+			p.Parent.Number = vf[rng.Intn(len(vf))] - uint64(rng.Range(2, 12))
+		}
+		for i := 0; i < 10; i++ {
+			p.Gaps = append(p.Gaps, []int64{1, 9, 100, 179, 180, 240, 1000}[rng.Intn(7)])
+		}
+		return p
+	}
 	if k%2 == 0 {
 		p.Mode = "rules"
 		for i := rng.Range(8, 30); i > 0; i-- {
@@ -289,6 +339,8 @@ func ExecC13(t *testing.T, pa any, col *kernel.Collector) []kernel.Violation {
 	chainsim.Bubble(t, func() {
 		if p.Mode == "batch" {
 			vs = execC13Batch(p, col)
+		} else if p.Mode == "uncles" {
+			vs = execC13Uncles(p, col)
 		} else {
 			vs = execC13Rules(p, col)
 		}
@@ -325,6 +377,10 @@ func execC13Rules(p *C13Plan, col *kernel.Collector) []kernel.Violation {
 		tm := new(big.Int).Add(parent.Time, big.NewInt(c.Gap))
 		if c.NowDelta != nil {
 			tm = big.NewInt(now + *c.NowDelta)
+		}
+		if c.TimeAbs != "" {
+			tm = bigOf(c.TimeAbs)
+			col.Inc("fault_timestamp_beyond_64_bits")
 		}
 		if tm.Sign() < 0 {
 			tm = big.NewInt(0)
@@ -725,4 +781,125 @@ func ShrinkC13Plan(pa any) []any {
 		out = append(out, q)
 	}
 	return out
+}
+
+// execC13Uncles builds a 10-block synthetic chain with side blocks and judges
+// one uncle-set situation with VerifyUncles against the statement: at most the
+// fork's maximum, recent, unique (also against what ancestors already
+// included), not ancestors, individually valid.
+func execC13Uncles(p *C13Plan, col *kernel.Collector) []kernel.Violation {
+	r, _, parent := c13Base(p)
+	forks := refmodel.Forks(p.Forks)
+	uc := p.Uncle
+	child := func(par *types.Header, gap int64, salt byte) *types.Header {
+		tm := new(big.Int).Add(par.Time, big.NewInt(gap))
+		return mkHeader(r.cfg, par.Hash(), par.Number.Uint64()+1, tm, refmodel.ExpectedDifficulty(forks, p.ChainID, tm, refHdr(par)), par.GasLimit, 0, 0, salt)
+	}
+	// main chain c[0..9] on top of parent; c[9] is the including block
+	chain := []*types.Header{}
+	prev := parent
+	for i := 0; i < 10; i++ {
+		h := child(prev, p.Gaps[i%len(p.Gaps)], byte(i))
+		chain = append(chain, h)
+		prev = h
+	}
+	incl := chain[9]
+	anc := func(depth int) *types.Header { // ancestor of incl at depth (1 = parent)
+		return chain[9-depth]
+	}
+	sideOf := func(depth int, salt byte) *types.Header { // a side block whose parent is the ancestor at that depth
+		par := anc(depth)
+		return child(par, 7, 100+salt)
+	}
+	maxU := refmodel.MaxUncles(forks, incl.Number.Uint64())
+	var uncles []*types.Header
+	ancestorUncles := map[int][]*types.Header{} // depth -> uncles that ancestor included
+	want := ""                                  // "" = accept
+	depth := uc.Depth
+	if depth < 2 {
+		depth = 2
+	}
+	if depth > 7 {
+		depth = 7
+	}
+	switch uc.Case {
+	case uncleValid:
+		n := uc.Count
+		if n > maxU {
+			n = maxU
+		}
+		for i := 0; i < n; i++ {
+			uncles = append(uncles, sideOf(depth, byte(i)))
+		}
+	case uncleDuplicateOfAncestorsUncle:
+		u := sideOf(depth, 0)
+		by := uc.ByDepth
+		if by >= depth { // the including ancestor must be below the uncle's parent... i.e. a descendant of it
+			by = depth - 1
+		}
+		if by < 1 {
+			by = 1
+		}
+		ancestorUncles[by] = []*types.Header{u}
+		uncles = []*types.Header{u}
+		want = "duplicate of an uncle an ancestor already included"
+		if v1, v2 := refmodel.HeaderVersion(forks, u.Number.Uint64()), refmodel.HeaderVersion(forks, anc(by).Number.Uint64()); v1 != v2 {
+			col.Inc("probe_duplicate_uncle_across_version_fork")
+		}
+	case uncleTwiceInBlock:
+		u := sideOf(depth, 0)
+		uncles = []*types.Header{u, u}
+		want = "same uncle twice (or too many)"
+	case uncleTooMany:
+		for i := 0; i <= maxU; i++ {
+			uncles = append(uncles, sideOf(depth, byte(i)))
+		}
+		want = "more uncles than the fork allows"
+	case uncleIsAncestor:
+		uncles = []*types.Header{anc(depth)}
+		want = "uncle is an ancestor"
+	case uncleParentTooOld:
+		// parent at depth 8: one generation too old (chain has parent + 10 blocks: depth 8 = chain[1])
+		par := anc(8)
+		uncles = []*types.Header{child(par, 7, 150)}
+		want = "uncle's parent is not among the 7 latest ancestors"
+	case uncleSiblingOfBlock:
+		uncles = []*types.Header{child(anc(1), 7, 160)}
+		want = "uncle is a sibling of the block"
+	case uncleInvalidHeader:
+		u := sideOf(depth, 0)
+		u.Difficulty = new(big.Int).Add(u.Difficulty, big.NewInt(1))
+		uncles = []*types.Header{u}
+		want = "uncle header breaks the difficulty rule"
+	}
+	// publish the chain (blocks carry the uncles their headers' owners included)
+	r.mu.Lock()
+	r.blocks[parent.Hash()] = types.NewBlockWithHeader(parent)
+	for i, h := range chain[:9] {
+		r.byHash[h.Hash()] = h
+		d := 9 - i
+		r.blocks[h.Hash()] = types.NewBlockWithHeader(h).WithBody(nil, ancestorUncles[d])
+	}
+	r.mu.Unlock()
+	blk := types.NewBlockWithHeader(incl).WithBody(nil, uncles)
+	engine := aquahash.NewFaker()
+	var err error
+	var panicked any
+	func() {
+		defer func() { panicked = recover() }()
+		err = engine.VerifyUncles(r, blk)
+	}()
+	col.Inc("uncle_sets_checked")
+	col.Inc(fmt.Sprintf("uncle_case_%d", uc.Case))
+	if panicked != nil {
+		return []kernel.Violation{{Class: "uncle-verification-panic", Detail: fmt.Sprintf("case %+v: %v", *uc, panicked)}}
+	}
+	if want == "" && err != nil {
+		return []kernel.Violation{{Class: "valid-uncle-set-rejected", Detail: fmt.Sprintf("forks %v parent #%d case %+v (%d uncles, max %d): engine says %v", p.Forks, p.Parent.Number, *uc, len(uncles), maxU, err)}}
+	}
+	if want != "" && err == nil {
+		return []kernel.Violation{{Class: "invalid-uncle-set-accepted", Detail: fmt.Sprintf("forks %v parent #%d (including block #%d) case %+v: %s, yet VerifyUncles accepts", p.Forks, p.Parent.Number, incl.Number, *uc, want)}}
+	}
+	kernel.SetNonTrivial()
+	return nil
 }
